@@ -4,6 +4,7 @@ Backend for generating Python types that match the spec.
 
 
 import argparse
+import datetime
 import itertools
 import re
 
@@ -123,6 +124,11 @@ class PythonTypesBackend(CodeBackend):
 
         self.emit("from __future__ import unicode_literals")
 
+        if self._namespace_needs_datetime(namespace):
+            # Timestamp route attributes and field defaults are emitted as
+            # datetime.datetime(...) expressions.
+            self.emit("import datetime")
+
         self.emit_raw(validators_import)
 
         # Generate import statements for all referenced namespaces.
@@ -162,6 +168,20 @@ class PythonTypesBackend(CodeBackend):
                     namespace, data_type)
 
         self._generate_routes(api.route_schema, namespace)
+
+    @staticmethod
+    def _namespace_needs_datetime(namespace):
+        for route in namespace.routes:
+            for value in (route.attrs or {}).values():
+                if isinstance(value, datetime.datetime):
+                    return True
+        for data_type in namespace.data_types:
+            if is_struct_type(data_type):
+                for field in data_type.fields:
+                    if field.has_default and is_timestamp_type(
+                            unwrap_aliases(field.data_type)[0]):
+                        return True
+        return False
 
     def _generate_dummy_namespace_module(self, reserved_namespace_name):
         generate_module_header(self)
